@@ -2,7 +2,7 @@
 X14 — writers of the define table."""
 from vlib import sx
 from vlib.report import RuleResult
-from rules.x_pp import model, sq, arm_of_line, CRATE
+from rules.x_pp import model, sq, arm_of_line, CRATE, table_var
 
 
 def resolver_fn(pp):
@@ -40,7 +40,7 @@ def run(ctx):
                 id_var = sx.pat_idents(st['pat'])[0]
         r.exactly('usage_name_binding', 1 if id_var else 0, 1)
         # the table lookup uses that name on the table parameter
-        tab = 'defines' if 'defines' in params else None
+        tab = table_var(pp) if table_var(pp) in params else ('defines' if 'defines' in params else None)
         look = [n for n in sx.walk(body) if n.get('k') == 'mcall' and n['m'] == 'get' and sx.is_path(n['recv'], tab)]
         r.inst('lookup', {'lookup': [sq(x) for x in look]})
         if len(look) != 1 or sq(look[0]['args'][0]) != '&' + (id_var or '?'):
@@ -107,7 +107,7 @@ def run(ctx):
         if len(calls) != 1:
             r.fail('%s:%s:re-preprocess' % (CRATE, name), where(f), 'the expansion must be preprocessed again exactly once (nested usages)')
     # --------------------------------------------------------------------------------------------- X14
-    tab = 'defines'
+    tab = table_var(pp)
     writes = []
     for n in sx.walk(pp.loop_fn['body']):
         k = n.get('k')
